@@ -398,3 +398,43 @@ class GenExp:
 
 def is_genexp(v):
     return isinstance(v, GenExp)
+
+
+_KW_CACHE = {}
+
+
+def ignores_kwargs(fn):
+    """does the model function `fn(..., kwargs)` never look at its keyword arguments?  (source scan, cached; wrappers are
+    followed through __wrapped__).  Used to refuse - as "unsupported" - a call that passes keyword arguments to a model
+    that would silently drop them (a model must not be applied to a call shape it does not describe)."""
+    import inspect
+    seen = 0
+    while hasattr(fn, "__wrapped__") and seen < 5:
+        fn = fn.__wrapped__
+        seen += 1
+    key = getattr(fn, "__code__", None)
+    if key is None:
+        return False
+    if key in _KW_CACHE:
+        return _KW_CACHE[key]
+    try:
+        src = inspect.getsource(fn)
+    except (OSError, TypeError):
+        _KW_CACHE[key] = False
+        return False
+    body = src.split(":", 1)[1] if ":" in src else src
+    header_end = src.find("):")
+    body = src[header_end:] if header_end >= 0 else src
+    r = "kwargs" not in body
+    _KW_CACHE[key] = r
+    return r
+
+
+def audit_kwargs(fn, name, kwargs):
+    if kwargs and ignores_kwargs(fn):
+        import os
+        if os.environ.get("VERIF_AUDIT_KWARGS"):
+            with open(os.environ["VERIF_AUDIT_KWARGS"], "a") as fh:
+                fh.write("%s %s\n" % (name, sorted(kwargs)))
+            return
+        raise Unsupported("keyword argument(s) %s of %s are not modelled" % (", ".join(sorted(kwargs)), name))
